@@ -23,6 +23,7 @@ type region struct {
 	frozen    bool
 	revisions int
 	large     int
+	arealGCs  int
 	pencils   int
 	nOrig     int
 	revOf     []int // indices of (original, revision, probe) when a revision exists
@@ -148,6 +149,7 @@ type pool struct {
 	frozen    bool
 	revisions int
 	large     int
+	arealGCs  int
 	pencils   int
 	nOrig     int
 	revOf     []int // indices of (original, revision, probe) when a revision exists
@@ -217,6 +219,33 @@ func buildPool(m *vs.Stream, freeze bool) (*pool, error) {
 		}
 		if attempt >= 2 {
 			general = false // give up: fall back to the lattice class
+		}
+	}
+	// occasionally a collection of 3-6 areal members (sums over members: any
+	// dependence of a floating-point accumulation on iteration order)
+	if m.Intn(8, "pool/arealgc") == 7 {
+		cfg := gen.Cfg{MaxPts: 12, MaxParts: 3, ForceType: 3, SpareCap: true}
+		if general {
+			cfg.Jitter = 0.3
+		}
+		if p.reg != nil {
+			cfg.Alloc = p.reg.alloc
+		}
+		var ms []geom.Geometry
+		n := 3 + m.Intn(4, "pool/arealgc/n")
+		for i := 0; i < n; i++ {
+			g := gen.New(m, p.lat, cfg)
+			pg := g.Valid(0)
+			if pg.IsPolygon() && !pg.IsEmpty() {
+				ms = append(ms, pg)
+			}
+		}
+		if len(ms) >= 3 {
+			gc := geom.NewGeometryCollection(ms).AsGeometry()
+			if !general || gen.ClearanceOK(append(append([]geom.Geometry(nil), p.geoms...), gc), 1e-6) {
+				p.geoms = append(p.geoms, gc)
+				p.arealGCs++
+			}
 		}
 	}
 	// occasionally a "pencil": 3-5 lattice segments that all pass through one
